@@ -82,6 +82,7 @@ func wedgeMain(args []string) {
 	wg.Wait()
 	// deliberate replays of the known findings (sequential, fresh shards)
 	if cf.replay == "" {
+		abandonedBeforeSend(sum, cf.seed)
 		replayBackpressure(sum)
 		already := false
 		sum.mu.Lock()
@@ -253,6 +254,68 @@ func keysS(m map[string]bool) string {
 		}
 	}
 	return strings.Join(l, "+")
+}
+
+// abandonedBeforeSend: calls whose context has already ended when they are made (RPCs, quorum calls, one-way calls),
+// in bursts, on healthy idle nodes; then the nodes are left idle for a moment and probed.  No stream fails in this
+// workload (nothing is cancelled during a write, no server stops), so the known wedges of C09, which need a stream
+// failure, have no legitimate cause here: a node that does not answer afterwards is a violation whatever the shape.
+func abandonedBeforeSend(sum *sumT, seed int64) {
+	r := rand.New(rand.NewSource(seed + 4242))
+	for round := 0; round < 3; round++ {
+		sh, err := newShard(3, gorums.WithSendBufferSize([]uint{0, 0, 4}[round%3]))
+		if err != nil {
+			fatal(err)
+		}
+		sh.cl.D.KeepLog = false
+		sh.cl.D.Default = func(server int, method, val string) *puppet.Script {
+			s := puppet.NewScript()
+			s.Action = puppet.Reply
+			s.Release = "early"
+			return s
+		}
+		sh.qs.F = func(method, req string, replies map[uint32]int64) (int64, int, bool, bool) {
+			return 0, len(replies), len(replies) >= 3, true
+		}
+		dead, cancel := context.WithCancel(context.Background())
+		cancel()
+		n := 40 + r.Intn(60)
+		for i := 0; i < n; i++ {
+			req := &dev.Request{Value: fmt.Sprintf("abs%d|0|x", i)}
+			done := make(chan struct{})
+			go func() {
+				defer close(done)
+				defer func() { recover() }()
+				switch i % 4 {
+				case 0, 1:
+					sh.node(uint32(1+i%3)).GRPCCall(dead, req)
+				case 2:
+					sh.all.QuorumCall(dead, req)
+				case 3:
+					sh.all.Multicast(dead, req)
+				}
+			}()
+			select {
+			case <-done:
+			case <-time.After(3 * time.Second):
+				w := diagnose()
+				sum.mismatch(Mismatch{Property: "C09", Case: fmt.Sprintf("abandoned-before-send round=%d call %d of %d", round, i, n), Expected: "a call whose context has already ended returns at once",
+					Observed: "still running after 3 s (goroutine signature: " + w.id + ")", Detail: strings.Join(signatures(w.dump), "; ")})
+				go sh.close()
+				return
+			}
+		}
+		time.Sleep(30 * time.Millisecond) // the nodes are idle now
+		if bad := probeAll(sh, 3*time.Second); len(bad) > 0 {
+			w := diagnose()
+			sum.mismatch(Mismatch{Property: "C09", Case: fmt.Sprintf("abandoned-before-send round=%d: %d calls made with an already-ended context on healthy idle nodes, then a probe RPC", round, n),
+				Expected: "every node answers a probe RPC with a fresh context", Observed: fmt.Sprintf("nodes %v do not answer (goroutine signature: %s)", bad, w.id), Detail: strings.Join(signatures(w.dump), "; ")})
+			go sh.close()
+			return
+		}
+		sum.count("abandoned-before-send:ok")
+		go sh.close()
+	}
 }
 
 // replayBackpressure: a server-stream call whose quorum function says done on the first reply while every
